@@ -296,6 +296,10 @@ class AI:
                 return {"lt": o == "lt", "le": o in ("lt", "eq"), "gt": o == "gt", "ge": o in ("gt", "eq"), "eq": o == "eq", "ne": o != "eq"}[nm]
             if nm in ("cmp", "partial_cmp"):
                 a, b = self.ev(ks[0], env), self.ev(ks[1], env)
+                if isinstance(a, bool) and isinstance(b, bool):
+                    # bool ordering: false < true (`other.is_negative().cmp(&self.is_negative())`)
+                    o = "Equal" if a == b else ("Less" if (not a and b) else "Greater")
+                    return ("ok", o) if nm == "partial_cmp" else o
                 o = {"lt": "Less", "eq": "Equal", "gt": "Greater"}[self.mag_cmp(a, b)]
                 return ("ok", o) if nm == "partial_cmp" else o
             raise Undet("op %s" % nm)
